@@ -497,6 +497,32 @@ def run(ctx):
                     o[k] = v
                 objs.append(o)
             dumps = [o.dump() for o in objs]
+            # the other ways of writing a paragraph out give the same text: str(), bytes(), dump into a binary / text file
+            # object, in UTF-8 and - where the text allows - in another encoding
+            for o, dp in zip(objs, dumps):
+                outs = {"str()": str(o)}
+                if hasattr(o, "__bytes__"):
+                    outs["bytes()"] = bytes(o).decode("utf-8")
+                fdb = io.BytesIO()
+                o.dump(fdb)
+                outs["dump(binary file)"] = fdb.getvalue().decode("utf-8")
+                fdt = io.StringIO()
+                o.dump(fdt, text_mode=True)
+                outs["dump(text file, text_mode=True)"] = fdt.getvalue()
+                try:
+                    dp.encode("iso8859-1")
+                    fdl = io.BytesIO()
+                    o.dump(fdl, encoding="iso8859-1")
+                    outs["dump(binary file, encoding='iso8859-1')"] = fdl.getvalue().decode("iso8859-1")
+                    back = [list(q.items()) for q in Deb822.iter_paragraphs(fdl.getvalue(), use_apt_pkg=False, encoding="iso8859-1")]
+                    back1 = list(Deb822(fdl.getvalue(), encoding="iso8859-1").items())
+                    if back != [list(o.items())] or back1 != list(o.items()):
+                        raise AssertionError("text written and read back as iso8859-1 bytes gives %r / %r" % (back, back1))
+                except UnicodeEncodeError:
+                    pass
+                wrong = [k for k, v in outs.items() if v != dp]
+                if wrong:
+                    raise AssertionError("%s differs from dump(): %r vs %r" % (wrong[0], outs[wrong[0]], dp))
         except Exception as e:
             t.failed("building / dumping a valid paragraph raised %r" % (e,), paragraphs=paras)
             break
